@@ -46,6 +46,13 @@ theorem frame_verdict (s : St) (v : Ver) : Frame s (verifyVerdict s v).1 := by
     split
     · exact ⟨rfl, fun _ h => h⟩
     · exact frame_backoff s
+  | okLost =>
+    simp only [verifyVerdict]
+    split
+    · exact Frame.trans (⟨rfl, fun _ h => h⟩ : Frame s { s with secure := true }) (frame_finish _ _)
+    · split
+      · exact Frame.trans ⟨rfl, fun _ h => h⟩ (frame_backoff _)
+      · exact frame_backoff s
   | wrongId =>
     simp only [verifyVerdict]
     split
